@@ -1722,6 +1722,16 @@ func (db *DB) CommitWAL(ctx context.Context) (err error) {
 	for pgno := range txFrameOffsets {
 		pgnos = append(pgnos, pgno)
 	}
+
+	// Pages the transaction added to the database without writing a frame for
+	// them are part of it too. SQLite does not write free-list leaves that
+	// are allocated and freed again inside one transaction: readers find such
+	// a page in an earlier frame, in the database file, or nowhere (zeros).
+	for pgno := prevPageN + 1; pgno <= commit; pgno++ {
+		if _, ok := txFrameOffsets[pgno]; !ok {
+			pgnos = append(pgnos, pgno)
+		}
+	}
 	sort.Slice(pgnos, func(i, j int) bool { return pgnos[i] < pgnos[j] })
 
 	frame := make([]byte, walFrameSize)
@@ -1740,9 +1750,15 @@ func (db *DB) CommitWAL(ctx context.Context) (err error) {
 			continue
 		}
 
-		// Read next frame from the WAL file.
-		offset := txFrameOffsets[pgno]
-		if _, err := internal.ReadFullAt(walFile, frame, offset); err != nil {
+		// Read next frame from the WAL file. A page without a frame in this
+		// transaction is read the way a reader would find it.
+		offset, written := txFrameOffsets[pgno]
+		if !written {
+			if err := db.readPage(dbFile, walFile, pgno, frame[WALFrameHeaderSize:]); err != nil {
+				return fmt.Errorf("read unwritten page: pgno=%d err=%w", pgno, err)
+			}
+			binary.BigEndian.PutUint32(frame[0:4], pgno)
+		} else if _, err := internal.ReadFullAt(walFile, frame, offset); err != nil {
 			return fmt.Errorf("read next frame: %w", err)
 		}
 		pgno := binary.BigEndian.Uint32(frame[0:4])
@@ -1758,6 +1774,15 @@ func (db *DB) CommitWAL(ctx context.Context) (err error) {
 		db.chksums.mu.Unlock()
 		pageChksum := ltx.ChecksumPage(pgno, frame[WALFrameHeaderSize:])
 		newWALChksums[pgno] = pageChksum
+
+		// An unwritten page that is not in the WAL either lives in the database
+		// file (as a hole once the file is extended): its checksum has to
+		// outlive the checkpoint that empties the WAL.
+		if _, inWAL := db.wal.frameOffsets[pgno]; !written && !inWAL {
+			db.chksums.mu.Lock()
+			db.setDatabasePageChecksum(pgno, pageChksum)
+			db.chksums.mu.Unlock()
+		}
 
 		TraceLog.Printf("[CommitWALPage(%s)]: pgno=%d chksum=%s prev=%s\n", db.name, pgno, pageChksum, prevPageChksum)
 	}
@@ -1908,10 +1933,24 @@ func (db *DB) readPage(dbFile, walFile *os.File, pgno uint32, buf []byte) error 
 
 	// Otherwise read from the database file.
 	offset := int64(pgno-1) * int64(db.pageSize)
-	if _, err := internal.ReadFullAt(dbFile, buf, offset); err != nil {
+	if err := readDatabasePageAt(dbFile, buf, offset); err != nil {
 		return fmt.Errorf("read database page: %w", err)
 	}
 	return nil
+}
+
+// readDatabasePageAt reads one page of the database file. The file of a WAL
+// mode database can be shorter than the database: a page that has never been
+// written anywhere reads as zeros, as it does for SQLite.
+func readDatabasePageAt(f *os.File, buf []byte, offset int64) error {
+	n, err := f.ReadAt(buf, offset)
+	if err == io.EOF || (err == nil && n < len(buf)) {
+		for i := n; i < len(buf); i++ {
+			buf[i] = 0
+		}
+		return nil
+	}
+	return err
 }
 
 // CreateSHM creates a new shared memory file on disk.
@@ -2949,7 +2988,7 @@ func (db *DB) Export(ctx context.Context, dst io.Writer) (ltx.Pos, error) {
 		} else {
 			if _, err := dbFile.Seek(int64(pgno-1)*int64(pageSize), io.SeekStart); err != nil {
 				return pos, fmt.Errorf("seek database page: %w", err)
-			} else if _, err := io.ReadFull(dbFile, pageData); err != nil {
+			} else if err := readDatabasePageAt(dbFile, pageData, int64(pgno-1)*int64(pageSize)); err != nil {
 				return pos, fmt.Errorf("read database page: %w", err)
 			}
 		}
@@ -3670,7 +3709,7 @@ func (db *DB) WriteSnapshotTo(ctx context.Context, dst io.Writer) (header ltx.He
 		} else {
 			if _, err := dbFile.Seek(int64(pgno-1)*int64(pageSize), io.SeekStart); err != nil {
 				return header, trailer, fmt.Errorf("seek database page: %w", err)
-			} else if _, err := io.ReadFull(dbFile, pageData); err != nil {
+			} else if err := readDatabasePageAt(dbFile, pageData, int64(pgno-1)*int64(pageSize)); err != nil {
 				return header, trailer, fmt.Errorf("read database page: %w", err)
 			}
 		}
